@@ -11,8 +11,8 @@ package dispatcher
 
 //@ func (*UpgradeAwareHandler).ServeHTTP props C04, C05
 //@   trusted "ghost definition: forwarded counts the requests handed to the proxy handler"
-//@   modifies forwarded, fwdlocation, fwdtransport, fwdpath, fwdrawpath, fwdscheme, fwdhost, *
-//@   ensures forwarded == old(forwarded) + 1 && fwdlocation == old(h.Location) && fwdtransport == old(h.Transport)
+//@   modifies forwarded, fwdlocation, fwdtransport, fwdpath, fwdrawpath, fwdscheme, fwdhost, fwdreq, *
+//@   ensures forwarded == old(forwarded) + 1 && fwdlocation == old(h.Location) && fwdtransport == old(h.Transport) && fwdreq == req
 //@   ensures old(h.Location) != nil ==> fwdpath == old(h.Location.Path) && fwdrawpath == old(h.Location.RawPath) && fwdscheme == old(h.Location.Scheme) && fwdhost == old(h.Location.Host)
 
 //@ func NewUpgradeAwareHandler props C04
@@ -24,9 +24,20 @@ package dispatcher
 //@   modifies *
 //@   ensures [exactly_one] responded + forwarded == old(responded) + old(forwarded) + 1
 //@   ensures [path_faithful] forwarded > old(forwarded) ==> fwdpath == old(req.URL.Path) && fwdrawpath == old(req.URL.RawPath)
+//@   ensures [watcher_started] forwarded > old(forwarded) ==> exists f ref :: {f in spawned} (f in spawned) && closureof(f, "(*dispatcher).ServeHTTP$1") && freevar(f, "(*dispatcher).ServeHTTP$1", "endpoint") == pickedref && freevar(f, "(*dispatcher).ServeHTTP$1", "newReq") == fwdreq && freevar(f, "(*dispatcher).ServeHTTP$1", "cancel") == cancelOf(reqCtxOf(fwdreq))
 //@   ensures [target_is_picked] forwarded > old(forwarded) ==> fwdtransport == pickedtransport && fwdscheme == urlScheme(pickedendpoint) && fwdhost == urlHost(pickedendpoint)
 //@   ensures [held_balanced] forall g ref :: {held[g]} held[g] == old(held[g])
 //@   ensures [rate_limited_429] acqfailed > old(acqfailed) ==> responded == old(responded) + 1 && forwarded == old(forwarded) && lastcode == 429
 //@   ensures [no_endpoint_503] popfailed > old(popfailed) ==> responded == old(responded) + 1 && forwarded == old(forwarded) && lastcode == 503
 //@   ensures [not_proxied_503] !defined(endpointPicker) ==> (responded > old(responded) && lastreason == "cluster_not_being_proxied" ==> lastcode == 503 && forwarded == old(forwarded))
 //@   ensures [no_match_not_forwarded] defined(endpointPicker) ==> (endpointPicker == nil ==> forwarded == old(forwarded) && responded == old(responded) + 1 && acqfailed == old(acqfailed) && popfailed == old(popfailed) && forall g ref :: {held[g]} held[g] == old(held[g]))
+
+// The goroutine that watches a proxied request: it waits for the request's own context or for the context of the endpoint
+// the request was sent to, and in the second case (endpoint removed, cluster deleted) it cancels the proxied request (C15).
+//@ func (*dispatcher).ServeHTTP$1 props C15
+//@   modifies cancelled
+//@   ensures [watches_request] selectchan(0) == doneOf(reqCtxOf(newReq))
+//@   ensures [watches_endpoint] selectchan(1) == doneOf(endpoint.ctx)
+//@   ensures [cancels_on_endpoint_done] selectedcase() == 1 ==> cancelled[cancel]
+//@   ensures [only_then] selectedcase() == 0 ==> cancelled == old(cancelled)
+//@   ensures [cancels_only_it] forall f ref :: {cancelled[f]} cancelled[f] && !old(cancelled[f]) ==> f == cancel
